@@ -206,6 +206,7 @@ UF_IMPL = {
     "uf_power": lambda x, y: _real(math.pow(float(x), float(y))),
     "uf_log": lambda b, x: _real(math.log(float(x), float(b))) if x > 0 and b > 0 and b != 1 else None,
     "uf_int_to_str": lambda i: z3.StringVal(str(i)),
+    "uf_replace": lambda a, b, c: z3.StringVal(a.replace(b, c)) if b != "" else None,
     "uf_sq": lambda x: _real(fractions.Fraction(x) ** 2),
     "uf_var_pop": lambda n, s_, q: _real(fractions.Fraction(q) / n - (fractions.Fraction(s_) / n) ** 2) if n > 0 else None,
     "uf_var_samp": lambda n, s_, q: _real((fractions.Fraction(q) - fractions.Fraction(s_) ** 2 / n) / (n - 1)) if n > 1 else None,
